@@ -24,9 +24,12 @@ from .fakes3 import FakeS3, payload
 from .io import (
     NONSEEKABLE_FLAVORS,
     SEEKABLE_FLAVORS,
+    DeclaredNonSeekableSink,
     HookedOSUtils,
     NonSeekableSink,
     NonSeekableSource,
+    InheritedSubscriber,
+    MixinSubscriber,
     RecordingSubscriber,
     partial_subscriber,
     SeekableSink,
@@ -156,6 +159,10 @@ def prepare_xfer(obs, x):
     for si, b in enumerate(t['subs'] or [] if 'subs' in t else [{}]):
         if b.get('only'):
             subs.append(partial_subscriber(b['only'])(w, x.label, f's{si}', b))
+        elif b.get('flavor') == 'inherited':
+            subs.append(InheritedSubscriber(w, x.label, f's{si}', b))  # all callbacks inherited from a base class
+        elif b.get('flavor') == 'mixin':
+            subs.append(MixinSubscriber(w, x.label, f's{si}', b))  # callbacks provided by a mixin
         else:
             subs.append(RecordingSubscriber(w, x.label, f's{si}', b))
     x.subs = subs
@@ -207,7 +214,7 @@ def prepare_xfer(obs, x):
         elif dst == 'seekable':
             x.dest = SeekableSink(w, x.label)
         elif dst == 'nonseekable':
-            x.dest = NonSeekableSink(w, x.label)
+            x.dest = DeclaredNonSeekableSink(w, x.label) if t.get('flavor') == 'declared' else NonSeekableSink(w, x.label)
         elif dst == 'fifo':
             path = os.path.join(tmpdir, f'fifo-{x.idx}')
             real = path + '-target' if t.get('symlink') else path
@@ -633,8 +640,7 @@ def _drive(obs, mgr, xfers, spec, mode, do_cancel):
         if spec.get('chained'):
             # subscribers that start a fresh transfer / cancel siblings from inside on_done: the callbacks run just after result()
             # is unblocked, so let them run as far as they can, then everything they started has to finish as well
-            with watchdog.polling():
-                watchdog.wait_quiescent(5.0, director=w.director, need=3)
+            _settle(w)
             chained = list(w.chained)
             co = [watchdog.Obligation(lambda f=f: f.result(), name=f'chained-{k}').start() for (k, f, e) in chained if f is not None]
             if not _await(obs, lambda: all(o.done.is_set() for o in co), 'chained-result'):
@@ -650,8 +656,7 @@ def _drive(obs, mgr, xfers, spec, mode, do_cancel):
         if spec.get('probe'):
             # permits are returned by done-callbacks of the executor futures, which run just
             # after result() is unblocked: probe at quiescence, as the statement says
-            with watchdog.polling():
-                obs.probe_quiescent = watchdog.wait_quiescent(5.0, director=w.director, need=3)
+            obs.probe_quiescent = _settle(w)
             pr = watchdog.Obligation(lambda: capacity_probe(mgr, obs.config), name='probe').start()
             if not _await(obs, pr.done.is_set, 'probe'):
                 return
@@ -789,18 +794,25 @@ def capacity_probe(mgr, cfg):
     return out
 
 
+def _settle(w, budget=10.0):
+    """Let everything that can still run, run: quiescent AND nothing held by the harness itself.  (A thread parked at a gate that the
+    - possibly starved - gate thread has not opened yet, or at a pause window, is not "everything has run".)  Returns whether that
+    state was reached within the (wall-clock, generous) budget; False means inconclusive for whatever is judged afterwards."""
+    ok = False
+    with watchdog.polling():
+        end = time.monotonic() + budget
+        while True:
+            ok = watchdog.wait_quiescent(5.0, director=w.director, need=3)
+            held = bool(w.director.parked_keys() or watchdog.PAUSED[0])
+            if not held or time.monotonic() > end:
+                return ok and not held
+            time.sleep(0.002)
+
+
 def _post_shutdown(obs):
     """After the barrier: let anything still alive run, then record what threads remain."""
     w = obs.world
-    with watchdog.polling():
-        end = time.monotonic() + 10.0
-        while True:
-            obs.post_quiescent = watchdog.wait_quiescent(5.0, director=w.director, need=3)
-            # (a thread the harness still holds - parked at a gate that the starved gate thread has not opened yet, or at a pause
-            # window - is not "everything has run": wait for the harness to let go)
-            if not (w.director.parked_keys() or watchdog.PAUSED[0]) or time.monotonic() > end:
-                break
-            time.sleep(0.002)
+    obs.post_quiescent = _settle(w)
     w.log.add('post.check')
     # the worker threads of THIS manager's executors (an earlier case of the same worker process that timed out may have left
     # threads with the same names behind)
